@@ -83,6 +83,16 @@ CLAIMS["C09"] = dict(level="other",
     note="Not a transition system: TLC is used as enumerator and as evaluator of the reference operators (the case-analysis use of TLA+). Trusted: AppCodec.tla (a transcription of the IEEE 1815 object library made for this check), "
          "the harness codec. Object contents are random bytes (value fidelity is C10); free-format g70 and attribute g0 objects are not enumerated; quick runs a seeded third of the cases that are neither must-accept nor end-of-range.")
 
+CLAIMS["C10"] = dict(level="other",
+    text="Values.tla states what every static and event variation can carry of a measurement (width, flag octet, absolute / relative time, packing) and the conversions as finite tables over boundary value "
+         "tokens (saturation with OVER_RANGE, low 16 bits of counters, promotion of packed formats unless plainly ONLINE, flags proper vs state bits, time and time quality). TLC enumerates from MC_Values.tla every "
+         "type x configured static variation x event variation x value token x flag octet (time tokens cycled) and every 3-event sequence over the relative-time boundary tokens with both time qualities; each case is "
+         "written into the real outstation database, read back by a class poll through the real outstation, the response is run through the master's extraction, and Mon_C10 (TLC trace validation) compares what the "
+         "handler would receive with Values.tla (index, value, flags, time, variation used on the wire).",
+    ref="§7 C10", technique="TLA+ table specification enumerated by TLC + trace validation of database-to-handler round trips",
+    note="Not a transition system: TLC enumerates the cases and evaluates the reference operators on the recorded round trips. Values are boundary tokens, not all bit patterns (TLC has no floats and 32-bit integers); "
+         "Values.tla is a transcription of the IEEE 1815 object library made for this check; octet strings and frozen analog inputs are not covered; quick runs every value plan and a seeded half of the relative-time sequences.")
+
 def main():
     head = subprocess.run(["git", "-C", "/repo", "log", "--format=%h %s"], capture_output=True, text=True).stdout.splitlines()
     hooks = [l.split()[0] for l in head if "verif hooks" in l]
@@ -104,7 +114,7 @@ def main():
         })
     na = [{"property_id": p, "reason": NA.get(p, "check not built yet (work in progress)")} for p in PROPS if p not in CLAIMS]
     m = {"version": 1,
-         "setup_cmd": "cd /verif/harness && cargo build --offline 2>&1 | tail -2 && cd /verif/spec && for f in Trace_Outstation.tla TM_C03.tla TM_C04.tla TM_C06.tla TM_C07L.tla TM_C08.tla Trace_Link.tla TM_C05.tla TM_C07.tla TM_C11.tla TM_C12.tla TM_C13.tla TM_C14.tla Trace_Master.tla TM_C09.tla TM_C15.tla TM_C16.tla TM_C17.tla TM_C19.tla; do tla-sany $f > /dev/null || exit 1; done",
+         "setup_cmd": "cd /verif/harness && cargo build --offline 2>&1 | tail -2 && cd /verif/spec && for f in Trace_Outstation.tla TM_C03.tla TM_C04.tla TM_C06.tla TM_C07L.tla TM_C08.tla Trace_Link.tla TM_C05.tla TM_C07.tla TM_C11.tla TM_C12.tla TM_C13.tla TM_C14.tla Trace_Master.tla TM_C09.tla TM_C10.tla TM_C15.tla TM_C16.tla TM_C17.tla TM_C19.tla; do tla-sany $f > /dev/null || exit 1; done",
          "hooks": {"guard": "dnp3_verif",
                    "enable": "rustflags --cfg dnp3_verif in /verif/harness/.cargo/config.toml (the harness crate has a path dependency on /repo/dnp3, default-features off)",
                    "baseline_off_cmd": "cd /repo && cargo test --workspace --no-fail-fast --offline",
